@@ -84,7 +84,16 @@ def main():
             shutil.copyfile(os.path.join(a.src, f), os.path.join(dst, f))
     notes = open(os.path.join(a.src, "notes.md")).read() if os.path.exists(os.path.join(a.src, "notes.md")) else ""
     meta["needs_to_manifest"] = notes[:1500]
-    ok = meta.get("demo_clean_rc") == 0 and meta.get("demo_patched_rc", 0) != 0 and meta.get("patch_applies") and (a.no_tests or meta.get("tests_rc") == 0)
+    old_meta_path = os.path.join(dst, "meta.json")
+    if os.path.exists(old_meta_path):
+        try:
+            old = json.load(open(old_meta_path))
+            for k in ("tests_rc", "tests_summary", "tests_wall_s", "tests_failed", "detection_history"):
+                if k in old and k not in meta:
+                    meta[k] = old[k]
+        except ValueError:
+            pass
+    ok = meta.get("demo_clean_rc") == 0 and meta.get("demo_patched_rc", 0) != 0 and meta.get("patch_applies") and (meta.get("tests_rc") == 0 if meta.get("tests_rc") is not None else a.no_tests)
     meta["confirmed"] = bool(ok)
     json.dump(meta, open(os.path.join(dst, "meta.json"), "w"), indent=1)
     print(f"{a.seed_id}: confirmed={ok} demo clean/patched rc={meta.get('demo_clean_rc')}/{meta.get('demo_patched_rc')} tests={meta.get('tests_summary')} caught_by={meta.get('caught_by')}")
